@@ -14,7 +14,7 @@
    bare-ring push (no lock at all) is used by at most one thread.
    All theorems: every capacity, ANY number n >= 1 of producer threads, every schedule. *)
 From Coq Require Import ZArith List Bool.
-From RV Require Import Model.SpscSkel Model.Spsc Gen.SpscProg Proofs.SpscProofs Proofs.SpscN Proofs.SpscClose.
+From RV Require Import Model.SpscSkel Model.Spsc Gen.SpscProg Proofs.SpscTie Proofs.SpscProofs Proofs.SpscN Proofs.SpscClose.
 Import ListNotations.
 Open Scope Z_scope.
 
